@@ -16,7 +16,7 @@ HEADER = '''/-
 NAMECLASS_FIELDS = ['op', 'comment', 'expr', 'not_', 'all', 'exists_', 'neNin', 'each',
                     'needsDecimal', 'operatorMap', 'logical', 'logicalConst', 'topNI', 'fieldNI',
                     'updater', 'updateInline', 'updateChecked', 'pushMod', 'stageImpl', 'exprHit', 'exprNI',
-                    'grouping', 'groupInline', 'typeImpl', 'typeNone']
+                    'grouping', 'groupInline', 'groupChecked', 'typeImpl', 'typeNone']
 
 
 def code_of(name):
@@ -62,7 +62,8 @@ def write_if_changed(path, text):
 
 LIST_FIELDS = ['operatorMap', 'logicalOps', 'logicalConst', 'topLevelNI', 'fieldNI', 'updaters',
                'updateInline', 'updateChecked', 'pushModifiers', 'stagesImpl', 'stagesNone', None, 'exprNI',
-               'groupingMap', 'groupInline', 'groupOperators', 'typeImpl', 'typeNone']
+               'groupingMap', 'groupInline', 'groupOperators', 'groupChecked', 'typeImpl',
+               'typeNone']
 
 
 def _tables_value(T, render):
@@ -109,6 +110,7 @@ def name_class(T, name):
         'updateChecked': name in T['updateChecked'], 'pushMod': name in T['pushModifiers'],
         'stageImpl': name in T['stagesImpl'], 'exprHit': hit, 'exprNI': name in T['exprNI'],
         'grouping': name in T['groupingMap'], 'groupInline': name in T['groupInline'],
+        'groupChecked': name in T['groupChecked'],
         'typeImpl': name in T['typeImpl'], 'typeNone': name in T['typeNone'],
     }
 
@@ -251,9 +253,9 @@ def emit_options(entries, known_silent, pairs=()):
     return '\n'.join(out)
 
 
-def emit_sites(T, derived, entries, known_site_pairs=()):
+def emit_sites(T, derived, entries, known_site_pairs=(), known_lazy_empty=()):
     """derived: extract_sites.derive_sites(); entries: extract_sites.probe_sites();
-    known_site_pairs: [(site id, name)] of known_findings.json"""
+    known_site_pairs: [(site id, name)], known_lazy_empty: [site id] of known_findings.json"""
     sites = derived['sites']
     by_name = {}
     for e in entries:
@@ -265,7 +267,9 @@ def emit_sites(T, derived, entries, known_site_pairs=()):
         if ct not in classes:
             classes[ct] = 'scls_%d' % len(classes)
         es = sorted(by_name[n], key=lambda e: (e['site'], extract_vocab.POSITIONS.index(e['base'])))
-        vec = '[' + ', '.join('(%d, .%s, .%s)' % (e['site'], e['base'], e['disp']) for e in es) + ']'
+        vec = '[' + ', '.join('⟨%d, .%s, .%s, .%s⟩' % (e['site'], e['base'], e['disp'],
+                                                         e.get('on_empty', 'notProbed'))
+                              for e in es) + ']'
         if vec not in vectors:
             vectors[vec] = 'sv_%d' % len(vectors)
         rows.append('  ⟨%d, %s, %s⟩' % (code_of(n), classes[ct], vectors[vec]))
@@ -282,15 +286,16 @@ def emit_sites(T, derived, entries, known_site_pairs=()):
         '  ⟨%s, %s, %d⟩' % (lstr(s['function']), lstr(s['helper']), s['line'])
         for s in derived['static']))
     out.append('/-- ⟨`<stage>/<key path in the probed specification>:<family>`, index of the call '
-               'site⟩ -/')
+               'site, family of the helper called there⟩ -/')
     out.append('def sites : List Site := [\n%s]\n' % ',\n'.join(
-        '  ⟨%s, %d⟩' % (lstr(s['id']), s['call']) for s in sites))
+        '  ⟨%s, %d, .%s⟩' % (lstr(s['id']), s['call'], s['family']) for s in sites))
     out.append('/-! distinct classifications -/')
     for ct, nm in classes.items():
         out.append('def %s : NameClass :=\n  %s' % (nm, ct))
-    out.append('\n/-! distinct vectors of observations: (site, position of the dispatcher, observed) -/')
+    out.append('\n/-! distinct vectors of observations: ⟨site, position of the dispatcher, observed, '
+               'the same calls on an empty collection⟩ -/')
     for vec, nm in vectors.items():
-        out.append('def %s : List (Nat × Position × Disposition) :=\n  %s' % (nm, vec))
+        out.append('def %s : List SiteObs :=\n  %s' % (nm, vec))
     out.append('')
     nchunks = 0
     for i in range(0, len(rows), CHUNK):
@@ -310,5 +315,10 @@ def emit_sites(T, derived, entries, known_site_pairs=()):
                '%s -/' % comment_safe(', '.join('%s %s' % p for p in known_site_pairs)))
     out.append('def knownIgnoredSitePairs : List (Nat × Code) := [%s]' % ', '.join(
         '(%d, %d)' % (idx[s], code_of(n)) for s, n in known_site_pairs if s in idx))
+    out.append('\n/-- known findings (known_findings.json, `lazy-empty:<site>`): sites at which a name '
+               'that is refused on a populated collection is let through on an empty one: %s -/'
+               % comment_safe(', '.join(known_lazy_empty)))
+    out.append('def knownLazyEmptySites : List Nat := [%s]' % ', '.join(
+        '%d' % idx[s] for s in known_lazy_empty if s in idx))
     out.append('\nend Generated\n')
     return '\n'.join(out)
